@@ -24,8 +24,8 @@ impl Scenario for C16 {
     }
     fn runs(&self, tier: Tier) -> u64 {
         match tier {
-            Tier::Quick => 6 * OPS.len() as u64 * 8,
-            Tier::Thorough => 6 * OPS.len() as u64 * 56,
+            Tier::Quick => 6 * OPS.len() as u64 * 8 + 200,
+            Tier::Thorough => 6 * OPS.len() as u64 * 56 + 4000,
         }
     }
     fn rule(&self) -> String {
@@ -44,6 +44,12 @@ impl Scenario for C16 {
         matches!((v.property, v.class.as_str()), ("C01", "seal-failed" | "authentic-rejected" | "roundtrip-mismatch") | ("C05", "wrap-failed" | "authentic-blob-rejected" | "roundtrip-mismatch") | ("C08", _))
     }
     fn plan(&self, seed: u64, run: u64, tier: Tier) -> Plan {
+        let structured = 6 * OPS.len() as u64 * if tier == Tier::Quick { 8 } else { 56 };
+        if run >= structured {
+            // mixed histories from small pools: every nonce / salt / ephemeral key of every output is
+            // still attributed to a draw of its own call
+            return super::soup::soup_plan("C16", seed, run, tier);
+        }
         let bk = Bk::ALL[(run % 6) as usize];
         let op = OPS[((run / 6) % OPS.len() as u64) as usize];
         let rep = run / (6 * OPS.len() as u64);
